@@ -72,6 +72,34 @@ Proof.
   destruct (h_id h); [discriminate|]. cbn. eauto.
 Qed.
 
+
+(** [checkHeader] on ANY complete header (format "nix", three-component version, the id its version
+    requires): it passes exactly when the version gate of C10 lets the version through *)
+Lemma checkHeader_complete h x y z mode :
+  hdr_complete h = true -> h_version h = Some [x; y; z] -> mode <> Overwrite ->
+  checkHeader h mode true = if gate_specb x y z mode false then Ok true else Err "nix::InvalidFile".
+Proof.
+  intros Hc Hv Hm. unfold hdr_complete in Hc. rewrite Hv in Hc.
+  destruct (h_format h) as [s|] eqn:Ef; [|discriminate].
+  apply andb_true_iff in Hc. destruct Hc as [Hs Hid].
+  unfold checkHeader. rewrite Ef, Hs, Hv. cbn [FormatVersion_of_vector bind].
+  assert (Hg : (if is_rw mode then FormatVersion_canWrite my_version (MkFormatVersion x y z)
+                else FormatVersion_canRead my_version (MkFormatVersion x y z)) = gate_specb x y z mode false).
+  { destruct mode; cbn [is_rw gate_specb orb]; [| |contradiction].
+    - destruct (FormatVersion_canWrite my_version (MkFormatVersion x y z)) eqn:E.
+      + apply canWrite_spec in E. symmetry. now apply eq_specb_spec.
+      + destruct (eq_specb (MkFormatVersion x y z) my_version) eqn:E2; [|reflexivity].
+        apply eq_specb_spec in E2. apply canWrite_spec in E2. congruence.
+    - symmetry. apply canRead_specb_spec. }
+  rewrite Hg. destruct (gate_specb x y z mode false).
+  - destruct (derived_ops (MkFormatVersion x y z) (MkFormatVersion 1 2 0)) as (_ & _ & Hge & _).
+    rewrite Hge. cbn [bind].
+    destruct (lexltb (MkFormatVersion x y z) (MkFormatVersion 1 2 0)); cbn [negb].
+    + reflexivity.
+    + rewrite orb_false_r in Hid. destruct (h_id h); [reflexivity|discriminate].
+  - reflexivity.
+Qed.
+
 Section Proofs.
   Variables content mut val : Type.
   Variable empty : content.
@@ -450,6 +478,24 @@ Section Proofs.
     - unfold Modes.file_open, Modes.ctor, exists_. rewrite Hs. reflexivity.
   Qed.
 
+
+  (** a file with both groups, both time stamps and a complete header of ANY format version: without Force it
+      opens (unchanged, nothing written) exactly when the version gate lets it through, else InvalidFile *)
+  Theorem open_complete_header (s : fsys) name (f : h5file) x y z mode comp :
+    s name = Some (H5 f) -> hdr_complete (f_hdr _ f) = true -> h_version (f_hdr _ f) = Some [x; y; z] ->
+    shaped content f = true -> mode <> Overwrite ->
+    file_open s name mode comp false =
+      if gate_specb x y z mode false then Ok (s, mkSess content name mode (resolve_comp comp) f)
+      else Err "nix::InvalidFile".
+  Proof.
+    intros Hs Hc Hv Hsh Hm. unfold shaped in Hsh. rewrite !andb_true_iff in Hsh. destruct Hsh as [[[H1 H2] H3] H4].
+    unfold Modes.file_open, Modes.ctor, exists_. rewrite Hs. cbn [negb andb orb]. rewrite andb_false_r.
+    assert (Ho : is_ow mode = false) by (destruct mode; [reflexivity|reflexivity|contradiction]). rewrite Ho.
+    cbn [negb]. rewrite (checkHeader_complete _ x y z mode Hc Hv Hm).
+    destruct (gate_specb x y z mode false); cbn [bind]; [|reflexivity].
+    rewrite H1, H2, H3, H4. cbn [ensure bind]. rewrite h5_eta by assumption. reflexivity.
+  Qed.
+
   (** ---- the extracted pointwise specification is met by the model on every input ---------------- *)
   Theorem open_meets_spec (s : fsys) name mode comp force :
     meets content (file_open s name mode comp force) (open_spec (s name) mode force).
@@ -460,9 +506,16 @@ Section Proofs.
       + destruct (lacks_header content fc) eqn:Hl.
         * destruct force; [exact I|]. cbn [meets].
           apply (bad_header_refused s name fc ReadWrite comp Hs Hl). discriminate.
-        * destruct fc as [| |f]; [exact I|exact I|]. destruct (lib_produced content f) eqn:Hp; [|exact I].
-          cbn [meets]. eexists _, _. split; [apply (proj1 (rw_preserves s name f comp force [] s [] Hs Hp (Forall_nil _)))|].
-          split; reflexivity.
+        * destruct fc as [| |f]; [exact I|exact I|]. destruct (lib_produced content f) eqn:Hp.
+          { cbn [meets]. eexists _, _. split; [apply (proj1 (rw_preserves s name f comp force [] s [] Hs Hp (Forall_nil _)))|].
+            split; reflexivity. }
+          destruct force; [exact I|]. destruct (shaped content f) eqn:Hsh; [|exact I].
+          destruct (h_version (f_hdr _ f)) as [[|x [|y [|z [|w vv]]]]|] eqn:Hv; try exact I.
+          cbn [lacks_header] in Hl. apply negb_false_iff in Hl.
+          pose proof (open_complete_header s name f x y z ReadWrite comp Hs Hl Hv Hsh) as Ho.
+          destruct (gate_specb x y z ReadWrite false); cbn [meets].
+          { eexists _, _. split; [apply Ho; discriminate|]. split; reflexivity. }
+          { eexists. apply Ho. discriminate. }
       + cbn [meets]. destruct (rw_creates s name comp force Hs) as (s1 & ss & Ho & Hm & Hi & _).
         exists s1, ss. repeat split; [exact Ho|exact Hm|]. now rewrite Hi.
     - (* ReadOnly *)
@@ -470,8 +523,15 @@ Section Proofs.
       + destruct (lacks_header content fc) eqn:Hl.
         * destruct force; [exact I|]. cbn [meets].
           apply (bad_header_refused s name fc ReadOnly comp Hs Hl). discriminate.
-        * destruct fc as [| |f]; [exact I|exact I|]. destruct (lib_produced content f) eqn:Hp; [|exact I].
-          cbn [meets]. eexists _, _. split; [apply (ro_open_no_write s name f comp force Hs Hp)|]. split; reflexivity.
+        * destruct fc as [| |f]; [exact I|exact I|]. destruct (lib_produced content f) eqn:Hp.
+          { cbn [meets]. eexists _, _. split; [apply (ro_open_no_write s name f comp force Hs Hp)|]. split; reflexivity. }
+          destruct force; [exact I|]. destruct (shaped content f) eqn:Hsh; [|exact I].
+          destruct (h_version (f_hdr _ f)) as [[|x [|y [|z [|w vv]]]]|] eqn:Hv; try exact I.
+          cbn [lacks_header] in Hl. apply negb_false_iff in Hl.
+          pose proof (open_complete_header s name f x y z ReadOnly comp Hs Hl Hv Hsh) as Ho.
+          destruct (gate_specb x y z ReadOnly false); cbn [meets].
+          { eexists _, _. split; [apply Ho; discriminate|]. split; reflexivity. }
+          { eexists. apply Ho. discriminate. }
       + cbn [meets]. eexists. apply ro_missing_refused. exact Hs.
     - (* Overwrite *)
       cbn [meets].
